@@ -22,10 +22,11 @@ Recorded defects (known_findings.json) and how they show here:
   `self/next/parent/local` and, as blocks, never render in a template that has a parent:
   `member_dispatch_partial`, `render_follows_rules_partial`, `named_block_once_partial` carry the guard
   "no such name is used"; `member_dispatch_counterexample`, `named_block_counterexample`.
-* a named block inside a def that a later def of the same name replaces is never checked
-  (`block_checks_partial` guard `(allDefNamesL l).Nodup`; `block_checks_counterexample_replaced_def`);
-  two anonymous blocks on one source line are rejected as duplicates
-  (guard `(allAnonLinesL l).Nodup`; `block_checks_counterexample_anonymous`).
+* two anonymous blocks on one source line are rejected as duplicates
+  (`block_checks_partial` guard `(allAnonLinesL l).Nodup`; `block_checks_counterexample_anonymous`).
+
+Repaired: a named block inside a def that a later def of the same name replaces was never checked (F-C06-3,
+/repo 14dadc4): the guard on def names is gone, `block_checks_replaced_def` is the regression theorem.
 
 OPEN (full-strength statements, false for the code as it is):
 ```
@@ -405,14 +406,15 @@ example : bind [(['p'], none)] true [] [(['z'], 1)] = none := by decide
 
 /-! ## block checks -/
 
-/-- **block_checks** (partial: no def is replaced by a later def of the same name; no two anonymous blocks share
-a source line).  The compiler raises a CompileException from its block checks (`check l ≠ []`) iff a block name
-occurs twice in the template, or a named block lies inside a def or a `<%call>` (at any depth, also below
-anonymous blocks or nested defs), or a template-level def has the name of a block. -/
-theorem block_checks_partial (l : List Node) (hd : (allDefNamesL l).Nodup) (ha : (allAnonLinesL l).Nodup) :
+/-- **block_checks** (partial: no two anonymous blocks share a source line).
+The compiler raises a CompileException from its block checks (`check l ≠ []`) iff a block name occurs twice in
+the template, or a named block lies inside a def or a `<%call>` (at any depth, also below anonymous blocks,
+nested defs, or defs that a later def of the same name replaces), or a template-level def has the name of a
+block. -/
+theorem block_checks_partial (l : List Node) (ha : (allAnonLinesL l).Nodup) :
     check l ≠ [] ↔
       ¬ (allBlocksL l).Nodup ∨ misplacedL l ≠ [] ∨ ∃ x ∈ topDefNames l, x ∈ allBlocksL l := by
-  rw [Ne, check_nil_iff l hd ha]
+  rw [Ne, check_nil_iff l ha]
   constructor
   · intro h
     by_cases h1 : (allBlocksL l).Nodup
@@ -431,13 +433,13 @@ theorem block_checks_partial (l : List Node) (hd : (allDefNamesL l).Nodup) (ha :
 
 example :
     let l : List Node := [.defn ['d'] [] [.block none 1 [.block (some ['b']) 2 []]], .block (some ['b']) 3 []]
-    (allDefNamesL l).Nodup ∧ (allAnonLinesL l).Nodup ∧ misplacedL l ≠ [] ∧ ¬ (allBlocksL l).Nodup := by decide
+    (allAnonLinesL l).Nodup ∧ misplacedL l ≠ [] ∧ ¬ (allBlocksL l).Nodup := by decide
 
-/-- the defect: the block `b` lies inside a def, yet the template compiles, because a later def of the same
-name replaces the first one and only the surviving def is ever visited -/
-theorem block_checks_counterexample_replaced_def :
+/-- regression (F-C06-3, repaired by 14dadc4): a named block inside a def that a later def of the same name
+replaces is rejected like any other named block inside a def -/
+theorem block_checks_replaced_def :
     let l : List Node := [.defn ['d'] [] [.block (some ['b']) 1 [.text 1]], .defn ['d'] [] [.text 2]]
-    check l = [] ∧ misplacedL l ≠ [] := by decide
+    check l = [Fault.inDef ['b']] ∧ misplacedL l = [['b']] := by decide
 
 /-- the defect: two anonymous blocks on one source line are rejected although no block name is duplicated and
 no named block is misplaced ("anonymous blocks render in place" cannot hold: the template does not compile) -/
